@@ -36,7 +36,7 @@ theorem C02_attach_enabled (U : Universe) (hn : NoRaise U) (s : St) (c : Obj) (e
   · show (ctrlRecord U (addHandler s c m) onAdd c (some e)).queue = _
     rw [c4]; rfl
   · show c ∈ (ctrlRecord U (addHandler s c m) onAdd c (some e)).registered
-    rw [c6]; exact (mem_setAdd _ _ _).mpr (.inr rfl)
+    rw [c6]; exact mem_insertSorted_self _ _
 
 /-- Attach, dispatching disabled: the callback is postponed rather than lost — exactly one relay
 is appended at the end of the queue, nothing is called now, the component is registered. -/
@@ -63,7 +63,7 @@ theorem C02_attach_disabled (U : Universe) (s : St) (c : Obj) (e : Ent) (m : Map
         simpa using this
     exact this m s.known hk
   simp only [he, Bool.false_eq_true, if_false, hk', if_true]
-  exact ⟨rfl, rfl, (mem_setAdd _ _ _).mpr (.inr rfl)⟩
+  exact ⟨rfl, rfl, mem_insertSorted_self _ _⟩
 
 /-- A component that is not an event handler, or declares no `on_add`, is attached silently. -/
 theorem C02_attach_silent (U : Universe) (s : St) (c : Obj) (e : Ent)
